@@ -44,14 +44,23 @@ def configs(tier, seed):
                     else:
                         init = [rng.getrandbits(dw) for _ in range(rng.randint(1, depth))]
                     cfgs.append({"size": size, "dw": dw, "g": g, "writable": writable, "init": init})
+    # `init` is documented as an ITERABLE of initial values: the same image handed over as a one-shot iterator / a tuple / a range
+    for k, c in enumerate([c for c in cfgs if c["init"]][:12]):
+        cfgs.append(dict(c, init_as=("generator", "tuple", "iter")[k % 3]))
     return cfgs
 
 
 def check_config(ctx, cfg):
     from amaranth_soc.wishbone.sram import WishboneSRAM
     try:
-        s = WishboneSRAM(size=cfg["size"], data_width=cfg["dw"], granularity=cfg["g"], writable=cfg["writable"],
-                         init=cfg["init"])
+        init = cfg["init"]
+        if cfg.get("init_as") == "generator":
+            init = (v for v in cfg["init"])
+        elif cfg.get("init_as") == "tuple":
+            init = tuple(cfg["init"])
+        elif cfg.get("init_as") == "iter":
+            init = iter(list(cfg["init"]))
+        s = WishboneSRAM(size=cfg["size"], data_width=cfg["dw"], granularity=cfg["g"], writable=cfg["writable"], init=init)
     except (ValueError, TypeError) as e:
         raise Refused(str(e))
     nl = ctx.netlist(s)
